@@ -423,7 +423,7 @@ def nifti_scenarios(chk, affs_core, affs_rand):
     k = 0
     for sc in range(6):
         for qc in range(6):
-            for bkind in ('same', 'close', 'far'):
+            for bkind in ('same', 'close', 'far', 'flipfar'):
                 for cls in ('n1', 'n1p', 'n2', 'n2p'):
                     out.append((fixed[k % 3], cls, dict(sc=sc, qc=qc, bkind=bkind, be=(k % 4 == 3))))
                     k += 1
@@ -444,7 +444,7 @@ def nifti_scenarios(chk, affs_core, affs_rand):
             if r < 0.45:
                 spec = None
             else:
-                spec = dict(sc=rng.randrange(6), qc=rng.randrange(6), bkind=rng.choice(['same', 'close', 'close2', 'far']),
+                spec = dict(sc=rng.randrange(6), qc=rng.randrange(6), bkind=rng.choice(['same', 'close', 'close2', 'far', 'flipfar']),
                             be=rng.random() < 0.3)
             out.append((a, cls, spec))
     return out
@@ -460,6 +460,10 @@ def perturb(A, bkind, rng_unused=None):
         return B
     if bkind == 'close2':     # translation only, 4e-6 relative
         B[:3, 3] = A[:3, 3] * (1.0 - 4e-6) + 1e-9
+        return B
+    if bkind == 'flipfar':    # far, and with the determinant of the other sign (stale qfac)
+        B[:3, :3] = (A[:3, :3] @ np.diag([1.0, 1.0, -1.0])) * 1.5
+        B[:3, 3] = A[:3, 3] + 7.0
         return B
     B[:3, :3] = A[:3, :3] * 1.5
     B[:3, 3] = A[:3, 3] + 7.0
@@ -753,6 +757,155 @@ def pred_hdr(case, o):
     return res
 
 
+# ----------------------------------------------------------------------------- histories on one header
+def obs_hist(case):
+    """A sequence of set_sform / set_qform calls (affines with determinants of both signs, code
+    only, affine only) on ONE NIfTI-1 and ONE NIfTI-2 header; then the getters and the bytes."""
+    import nibabel as nib
+    affs = [np.array([float.fromhex(x) for x in a['A']]).reshape(4, 4) for a in case['affs']]
+    out = {}
+    for ver, H in ((1, nib.Nifti1Header), (2, nib.Nifti2Header)):
+        r = dict(err=None)
+        with warnings.catch_warnings():
+            warnings.simplefilter('ignore')
+            h = H(endianness='>' if case['be'] else '<')
+            r['state0'] = nifti_hdr_state(h, ver)
+            try:
+                for k, code, idx in case['ops']:
+                    getattr(h, 'set_qform' if k == 'q' else 'set_sform')(None if idx is None else affs[idx], code)
+            except KeyError:
+                r['err'] = 'err key'
+            bb = h.binaryblock
+            a0, a1, p0, p1 = block_offsets(H)
+            r['ablock'], r['pblock'] = bb[a0:a1], bb[p0:p1]
+            r['state2'] = nifti_hdr_state(h, ver)
+            r['qfac'] = float(h['pixdim'][0])
+            r['S'] = np.array(h.get_sform())
+            try:
+                r['Q'] = np.array(h.get_qform())
+            except ValueError as e:
+                r['Q'] = None
+                r['exc'] = str(e)[:60]
+            try:
+                r['best'] = np.array(h.get_best_affine())
+            except ValueError:
+                r['best'] = None
+        out[ver] = r
+    return out
+
+
+def pred_hist(case, o):
+    res = []
+    lastq = [idx for k, code, idx in case['ops'] if k == 'q' and idx is not None]
+    lasts = [idx for k, code, idx in case['ops'] if k == 's' and idx is not None]
+    for ver in (1, 2):
+        r = o[ver]
+        if r['err']:
+            continue
+        eps = EPS32 if ver == 1 else EPS64
+        if lasts:
+            A = np.array([float.fromhex(x) for x in case['affs'][lasts[-1]]['A']]).reshape(4, 4)
+            if not same_bits(r['S'], roundtrip_exact(A, ver)):
+                res.append((f'NIfTI-{ver}: after the history get_sform is not the last affine stored', None))
+        st = r['state2']
+        if r['best'] is not None:
+            src, P = expected_by_priority(st, ver, [0])
+            if src == 'S' and not same_bits(r['best'], P):
+                res.append((f'NIfTI-{ver}: best affine is not the stored sform although sform_code != 0', None))
+            if src == 'Q' and r['Q'] is not None and not same_bits(r['best'], r['Q']):
+                res.append((f'NIfTI-{ver}: best affine is not the qform although sform_code = 0, qform_code != 0', None))
+        if not lastq:
+            continue
+        a = aff_of_case(case['affs'][lastq[-1]])
+        if not a['rot']:
+            continue
+        A = a['A']
+        want_qfac = 1.0 if det_sign_exact(A) > 0 else -1.0
+        if r['qfac'] != want_qfac:
+            res.append((f'NIfTI-{ver}: after the history qfac is {r["qfac"]}, the sign of det of the last qform affine is '
+                        f'{want_qfac}', None))
+        w = abs(a['w'])
+        ax = case['affs'][lastq[-1]].get('axis_aligned')
+        if r['Q'] is None:
+            res.append((f'NIfTI-{ver} get_qform raised: {r.get("exc")}',
+                        'S-C04d' if (ver == 2 and w <= 1e-7 and not ax) else None))
+            continue
+        cl, worst = qform_check(r['Q'], a, eps, eps)
+        if cl == 'relaxed':
+            if ver == 2 and w <= 1e-7 and not ax:
+                res.append((f'NIfTI-2 qform of an exact 180 degree rotation read back with error {worst:.3g} eps64', 'S-C04d'))
+            elif w > 0 and not (ver == 2 and w <= 1e-7):
+                res.append((f'NIfTI-{ver} qform near 180 degrees (|w|={w:.3g}) read back with error {worst:.3g} eps', 'S-C04c'))
+            else:
+                res.append((f'NIfTI-{ver}: exact 180 degree qform read back with error {worst:.3g} eps', None))
+        elif cl == 'bad':
+            res.append((f'NIfTI-{ver}: after the history get_qform differs from the last affine given to set_qform '
+                        f'({worst:.3g} eps, column-relative) or wrong translation', None))
+    return res
+
+
+def lines_hist(cid, case, o):
+    out = []
+    affs = [np.array([float.fromhex(x) for x in a['A']]).reshape(4, 4) for a in case['affs']]
+    kers = [kernel_oracle(A) for A in affs]
+    for ver in (1, 2):
+        r = o[ver]
+        st = r['state0']
+        tabvals = [1.0, -1.0]
+        atoks = []
+        for A, ker in zip(affs, kers):
+            tabvals += list(A[:3, :].ravel()) + ker['zooms'] + ker['bcd']
+            atoks.append('|'.join([zl([f64bits(x) for x in A[:3, :].ravel()]), str(int(ker['detpos'])),
+                                   zl([f64bits(x) for x in ker['zooms']]), zl([f64bits(x) for x in ker['bcd']])]))
+        ops = []
+        for k, code, idx in case['ops']:
+            if isinstance(code, str):
+                raise ValueError('string codes are exercised by the code table, not here')
+            ops.append(f"{k}:{'-' if code is None else code}:{'-' if idx is None else idx}")
+        line = (f"{cid}.v{ver} hist {int(case['be'])} {ver} {st['sc']} {st['qc']} {zl(st['srow'])} {st['p0']} {zl(st['pix'])} "
+                f"{zl(st['quat'])} {zl(st['qoff'])} {zl(st['dims'])} {mk_tab(tabvals, ver)} {';'.join(atoks)} {','.join(ops)}")
+        if r['err']:
+            exp = r['err']
+        else:
+            s2 = dict(r['state2'])
+            exp = f"ok {s2['qc']} {s2['sc']} {hx(r['ablock'])} {hx(r['pblock'])} {best_string(s2)}"
+        out.append((line, exp, 'header after a history of set_sform/set_qform calls (codes, affine block, pixdim[0:4])'))
+    return out
+
+
+def gen_histories(chk, core, rand):
+    """Histories of 2-4 calls; consecutive qform affines alternate the sign of the determinant
+    in the seed-independent part."""
+    rng = chk.rng
+    out = []
+    rot_core = [a for a in core]
+    pos = [a for a in rot_core if a['refl'] == 1]
+    neg = [a for a in rot_core if a['refl'] == -1]
+    k = 0
+    for i in range(0, 24):
+        p, n, p2 = pos[(5 * i) % len(pos)], neg[(7 * i + 1) % len(neg)], pos[(3 * i + 2) % len(pos)]
+        c1, c2 = 1 + i % 5, 1 + (i // 2) % 5
+        seqs = [([n, p], [('q', c1, 0), ('q', c2, 1)]),
+                ([p, n], [('q', c1, 0), ('q', None, 1)]),
+                ([n, p, n], [('q', c1, 0), ('s', c2, 1), ('q', None, 1), ('s', 0, None)]),
+                ([n, p2], [('q', None, 0), ('s', None, 0), ('q', c2, 1), ('q', 0, None), ('q', c1, None)])]
+        affs, ops = seqs[i % 4]
+        out.append((affs, ops, i % 3 == 2))
+    rot_rand = [a for a in rand if a['rot']]
+    for i in range(len(rot_rand) // 3):
+        n = rng.choice([2, 3])
+        affs = [rng.choice(rot_rand) for _ in range(n)]
+        ops = []
+        for j in range(n):
+            ops.append((rng.choice(['q', 'q', 's']), rng.choice([None, 0, 1, 2, 3, 4, 5]), j))
+            if rng.random() < 0.3:
+                ops.append((rng.choice(['q', 's']), rng.choice([None, 0, 2, 7]), None))
+        if not any(k == 'q' and idx is not None for k, c, idx in ops):
+            ops.append(('q', rng.choice([None, 1, 4]), n - 1))
+        out.append((affs, ops, rng.random() < 0.3))
+    return out
+
+
 # ----------------------------------------------------------------------------- image-level qform-only scenario
 def obs_imgq(case):
     CL = classes()
@@ -763,7 +916,13 @@ def obs_imgq(case):
     o = dict(ver=ver, refused=None)
     with warnings.catch_warnings():
         warnings.simplefilter('ignore')
-        img = K(data, np.diag([3.0, 3.0, 3.0, 1.0]))
+        A0 = (np.array([float.fromhex(x) for x in case['A0']]).reshape(4, 4) if case.get('A0')
+              else np.diag([3.0, 3.0, 3.0, 1.0]))
+        if case.get('reuse'):
+            # header of an image that carried A0, reused for an image with affine A
+            img = K(data, A, header=K(data, A0).header)
+        else:
+            img = K(data, A0)
         img.set_sform(None, code=0)
         try:
             img.set_qform(A, code=case['qcode'])
@@ -1136,8 +1295,12 @@ def run(chk: Check):
                 'Random tail (VERIF_SEED): general non-singular (cond < 200), rigid+zoom, reflection, near-180 '
                 '(|w| log-uniform 1e-9..0.5), exact 180 about random axes, zooms 1e-6..1e6 with translations to 1e6; '
                 'each x 8 image classes (Nifti1Image, Nifti1Pair, Nifti2Image, Nifti2Pair, AnalyzeImage, '
-                'Spm99AnalyzeImage, Spm2AnalyzeImage, MGHImage) x header supplied or not; BytesIO file maps plus real '
-                'files under the work directory.  A case is non-trivial when the affine is not a diagonal matrix; '
+                'Spm99AnalyzeImage, Spm2AnalyzeImage, MGHImage) x header supplied or not (header affine equal / allclose / far / '
+                'far with the determinant of the other sign); histories of 2-6 set_sform/set_qform calls on ONE header and '
+                'on one image or a reused header (determinants of both signs, code-only and affine-only calls) followed by '
+                'the getters / save / load; LR-flipped volume-centred affines with zooms not representable in float32 '
+                '(0.9, 1.1, 2.3) for the Analyze family, also saved over an existing image with another affine; BytesIO '
+                'file maps plus real files under the work directory.  A case is non-trivial when the affine is not a diagonal matrix; '
                 'distinct by (class, affine bits, header spec)')
     chk.assumptions = ['affines are finite, non-singular (cond < 200 for the general kind), shapes 3-D with dims <= 64',
                        'float32 rounding, column norms, sign of det (exact rational), polar factor and eigh quaternion '
@@ -1154,7 +1317,7 @@ def run(chk: Check):
         return
     rng = chk.rng
     core = core_affines()
-    nrand = chk.n(900, 6000)
+    nrand = chk.n(700, 6000)
     rand = [random_affine(rng, KINDS[i % len(KINDS)]) for i in range(nrand)]
     lines = []
     expect = {}       # line id -> (expected, what, case)
@@ -1223,6 +1386,39 @@ def run(chk: Check):
             pred, known = pred_imgq(case, o)
             preds[f'q{i}'] = handle_pred(chk, case, pred, known,
                                          impl_out=None if o['refused'] else str(o['loaded_affine'].tolist()))
+
+    # ---- histories on one header / one image (stale state between calls)
+    for i, (affs, ops, be) in enumerate(gen_histories(chk, core, rand)):
+        case = dict(scn='hist', be=bool(be), ops=[list(x) for x in ops],
+                    affs=[dict(case_of(a), axis_aligned=a['axis_aligned']) for a in affs])
+        o = obs_hist(case)
+        chk.count(key=('hist', i, tuple(tuple(x) for x in case['ops']), tuple(case['affs'][-1]['A'])),
+                  tag='hist:%d_ops' % len(ops), sample=case if i == 2 else None)
+        for ver in (1, 2):
+            if o[ver]['err']:
+                chk.refusal('KeyError')
+        ok = True
+        for pred, known in pred_hist(case, o):
+            ok = handle_pred(chk, case, pred, known,
+                             impl_out={v: (None if o[v]['Q'] is None else o[v]['Q'].tolist()) for v in (1, 2)}) and ok
+        cid = f'hi{i}'
+        preds[cid] = ok
+        for (ln, exp, what) in lines_hist(cid, case, o):
+            lines.append(ln)
+            expect[ln.split()[0]] = (exp, what, case)
+        # the same through the image API: an image (or a reused header) that carried affs[0], then
+        # set_sform(None, 0) + set_qform(last), save, load
+        last = [idx for k, c, idx in ops if k == 'q' and idx is not None][-1]
+        if last != 0:
+            a, a0 = affs[last], affs[0]
+            cls = ('n1', 'n2', 'n1p', 'n2p')[i % 4]
+            case = case_of(a, scn='imgq', cls=cls, qcode=1 + i % 5, axis_aligned=a['axis_aligned'],
+                           A0=[float(x).hex() for x in a0['A'].ravel()], reuse=bool(i % 2))
+            oq = obs_imgq(case)
+            chk.count(key=('imgq-hist', cls, tuple(case['A']), tuple(case['A0'])), tag=f"imgq-history:{cls}")
+            pred, known = pred_imgq(case, oq)
+            preds[f'qh{i}'] = handle_pred(chk, case, pred, known,
+                                          impl_out=None if oq['refused'] else str(oq['loaded_affine'].tolist()))
 
     # ---- Analyze, SPM99, SPM2, MGH
     others = [(a, cls, None) for a in core for cls in ('ana', 'spm99', 'spm2', 'mgh')]
@@ -1368,9 +1564,15 @@ def replay(chk, obj):
         res = pred_hdr(c, obs_hdr(c))
     elif scn == 'imgq':
         res = [pred_imgq(c, obs_imgq(c))]
+    elif scn == 'hist':
+        c = dict(c)
+        c['ops'] = [tuple(x) for x in c['ops']]
+        res = pred_hist(c, obs_hist(c))
     elif scn == 'other':
         c = dict(c)
         c.pop('via', None)
+        if c.get('twostep'):
+            c['via'] = [chk.workdir, c['cls']]
         o = obs_other(c)
         print('loaded affine:\n', o['loaded_affine'])
         res = [pred_other(c, o)]
